@@ -131,8 +131,12 @@ func vC13Hook(s *vKindSys, h []string) {
 			cd[i] = x.distance.Calculate(pq, c)
 		}
 		for _, k := range []int{-1, 1, 2} {
-			for _, t := range []float32{0, thr} {
+			// (a negative threshold is no threshold, as for the exact index)
+			for _, t := range []float32{0, thr, -thr} {
 				for _, r := range [][]uint32{nil, {1}, {2, 9}} {
+					if t < 0 && r != nil {
+						continue
+					}
 					var prev []VectorResult
 					for p := 1; p <= s.cfg.NList; p++ {
 						s.c.Evaluations++
